@@ -42,9 +42,9 @@ def main():
             meta["error"] = "patch does not apply: " + o[-500:]
             return finish(meta, out_dir, patch, demos, sdir)
         sh(["git", "apply", patch], cwd=wt)
-        rc, o = sh("cargo build --offline --features verif-hooks 2>&1 | tail -3", cwd=wt)
-        rc2, o2 = sh("cargo build --offline --no-default-features 2>&1 | tail -3", cwd=wt)
-        meta["compiles"] = "error" not in o and "error" not in o2
+        rc, o = sh("cargo build --offline --features verif-hooks", cwd=wt)
+        rc2, o2 = sh("cargo build --offline --no-default-features", cwd=wt)
+        meta["compiles"] = rc == 0 and rc2 == 0
         rc, o = sh("cargo test --workspace --no-fail-fast --offline 2>&1", cwd=wt)
         ok, failed = test_counts(o)
         meta["suite_with_change"] = {"passed": ok, "failed": failed}
@@ -54,14 +54,14 @@ def main():
         res_with = {}
         for d in demos:
             name = os.path.basename(d)[:-3]
-            rc, o = sh("cargo test --offline --test %s 2>&1 | tail -30" % name, cwd=wt)
+            rc, o = sh("cargo test --offline --test %s" % name, cwd=wt)
             res_with[name] = rc
         meta["demo_with_change_rc"] = res_with
         sh(["git", "apply", "-R", patch], cwd=wt)
         res_without = {}
         for d in demos:
             name = os.path.basename(d)[:-3]
-            rc, o = sh("cargo test --offline --test %s 2>&1 | tail -30" % name, cwd=wt)
+            rc, o = sh("cargo test --offline --test %s" % name, cwd=wt)
             res_without[name] = rc
         meta["demo_without_change_rc"] = res_without
         meta["ran"].append("cargo test --offline --test <demo>: with change rc %s, without rc %s" % (res_with, res_without))
